@@ -23,6 +23,16 @@ impl Engine {
     pub fn run_op(&mut self, op: &Op) {
         self.step += 1;
         self.stats.steps += 1;
+        self.ctx_tags = match op {
+            Op::Stake { .. } => vec!["C04"],
+            Op::SubmitBatch { .. } => vec!["C04", "C06"],
+            Op::DeliverRewards { .. } => vec!["C11"],
+            Op::Resume { .. } => vec!["C10"],
+            Op::FeeWithdraw { .. } => vec!["C11"],
+            Op::Withdraw { .. } => vec!["C05"],
+            Op::CircuitBreaker { .. } => vec!["C10"],
+            _ => vec![],
+        };
         match op {
             Op::Stake { user, amt, to, flag, exp, funds, fail } => self.do_stake(user, amt, to, *flag, exp, funds, *fail),
             Op::Unstake { user, amt, funds } => self.do_unstake(user, amt, funds),
@@ -613,6 +623,7 @@ impl Engine {
                 Some(b) if b.status != BStatus::Received => (Expect::Err, vec!["C05", "C06"]),
                 Some(b) if !b.reqs.contains_key(&sender) => (Expect::Err, vec!["C05", "C08"]),
                 Some(_) if self.oracle_blocks() => (Expect::Err, vec!["C15"]),
+                Some(_) if self.solvency_void => (Expect::Any, vec![]),
                 Some(_) => (Expect::Ok, vec!["C05", "C02"]),
             }
         };
@@ -1024,9 +1035,9 @@ impl Engine {
                 }
             }
             if !is_admin {
-                (Expect::Err, vec!["C07", "C08"], vec![])
+                (Expect::Err, vec!["C07", "C08", "C02"], vec![])
             } else if distinct.iter().any(|i| !self.m.packets.contains_key(i)) {
-                (Expect::Err, vec!["C07"], vec![])
+                (Expect::Err, vec!["C07", "C02"], vec![])
             } else if distinct.iter().any(|i| self.m.packets[i].receiver != receiver) {
                 (Expect::Err, vec!["C07"], vec![])
             } else {
@@ -1053,7 +1064,7 @@ impl Engine {
             if !dec_ok {
                 (Expect::Err, vec!["C07"], vec![])
             } else if set.is_empty() {
-                (Expect::Err, vec!["C07"], vec![])
+                (Expect::Err, vec!["C07", "C02", "C03"], vec![])
             } else {
                 let d0 = self.m.packets[&set[0]].denom.clone();
                 if set.iter().any(|i| self.m.packets[i].denom != d0) {
@@ -1067,6 +1078,7 @@ impl Engine {
             }
         };
         let fail = fail || self.m.cfg.channel != self.ch.channel;
+        let exp = if exp == Expect::Ok && self.solvency_void { Expect::Any } else { exp };
         if fail {
             self.ch.fail_transfer = Some(0);
         }
@@ -1162,6 +1174,9 @@ impl Engine {
             return;
         }
         let near = x == self.m.fees || x + 1 == self.m.fees;
+        if self.m.fees_unbacked && x > 0 {
+            self.solvency_void = true;
+        }
         self.m.fees -= x;
         let t = self.m.cfg.treasury.clone().unwrap();
         let mut want = BankDelta::new();
